@@ -3,7 +3,7 @@ CONSTANTS
   NT = 2
   MaxSteps = 100000
   Modes = {"fire", "call"}
-  Outcomes = {1, 4}
+  Outcomes = {1, 3, 4}
   Variants = {"intended", "pinned"}
   WithStop = TRUE
   WithUnreg = TRUE
